@@ -110,7 +110,7 @@ pub fn spec(prop: &str) -> Option<CheckSpec> {
             finalize: Some(finalize_c16),
         },
         "C19" => CheckSpec {
-            info: PropInfo { id: "C19", engine: "crash", rule: "one step() on a fresh machine per input: byte strings that are uniform (length 1-15), prefix/REX/opcode-structured over all one-, two- and three-byte opcodes, or encodings of the implemented forms re-prefixed and byte-mutated; register/flag/XMM/segment-base state from engine A's boundary-biased distributions, registers steered so that decoded memory operands hit mapped, read-only, edge, unmapped and non-canonical addresses; sometimes the fetch window is cut short by the end of the code area. Outcome Ok / Err / panic under catch_unwind; deaths and stalls via the supervisor. distinct_nontrivial = distinct (decoded iced Code or 'undecodable', outcome) pairs.", assumptions: CRASH_ASSUME, floor: (500_000, 20_000_000), exhaustive_subspaces: &[] },
+            info: PropInfo { id: "C19", engine: "crash", rule: "one step() on a fresh machine per input: byte strings that are uniform (length 1-15), prefix/REX/opcode-structured over all one-, two- and three-byte opcodes, or encodings of the implemented forms re-prefixed and byte-mutated; register/flag/XMM/segment-base state from engine A's boundary-biased distributions, registers steered so that decoded memory operands hit mapped, read-only, edge, unmapped and non-canonical addresses; sometimes the fetch window is cut short by the end of the code area. One case in five uses edge layouts instead (areas at both ends of the address space and around the non-canonical hole, zero-length areas, registers on area edges, 1-6 steps, never fully initialised machines, unallocatable resizes and revoked execute permission between steps); one in ten uses machines with a subset of the built-in syscall handlers installed, pipes created by earlier steps and `syscall` reached with edge / extreme argument registers. Outcome Ok / Err / panic under catch_unwind; deaths and stalls via the supervisor. distinct_nontrivial = distinct (decoded iced Code or 'undecodable', outcome) pairs.", assumptions: CRASH_ASSUME, floor: (500_000, 20_000_000), exhaustive_subspaces: &[] },
             finalize: None,
         },
         "C11" => CheckSpec {
